@@ -22,6 +22,20 @@ type graphCase struct {
 	g         *rg.G  // the labelled model
 	ref       *ref
 	g6        string
+	id        string   // name used in keys instead of the graph6 string (large structured graphs)
+	cliqueSets []string // closed-form list of the maximal cliques (sorted strings of sorted sets), nil: brute force
+}
+
+// keyID is the witness part of keys: the graph6 string, or the name of a
+// large structured graph.
+func (cs *graphCase) keyID() string {
+	if cs.id != "" {
+		return "graph=" + cs.id
+	}
+	if cs.g6 == "" {
+		cs.g6 = cs.g.G6()
+	}
+	return "g6=" + cs.g6
 }
 
 type runOpts struct {
@@ -31,6 +45,11 @@ type runOpts struct {
 	allOrders    bool // GreedyColor on all n! orders
 	seededOrders int
 	rng          *engine.Rng
+	reps         map[string]bool // representations to run (nil: all five)
+	fixedKs      bool            // IsKColorable only for the k listed in ks (else every k in 0..n+1)
+	ks           []int
+	noChi        bool // skip ChromaticNumber (lower-bound proof out of reach for a correct implementation)
+	noCliques    bool // skip AllMaximalCliques (too many cliques)
 }
 
 // Suppression of repeated reports: only the FIRST witness of each (API, kind)
@@ -51,20 +70,27 @@ type judge struct {
 }
 
 func newJudge(c *engine.Ctx, cs *graphCase, rep, how string, V []int) *judge {
-	if cs.g6 == "" {
+	if cs.g6 == "" && cs.id == "" {
 		cs.g6 = cs.g.G6()
 	}
 	return &judge{c: c, cs: cs, rep: rep, repHow: how, repV: V}
 }
 
 func (j *judge) callKey(api string) string {
-	return api + "|" + j.rep + "|g6=" + j.cs.g6
+	return api + "|" + j.rep + "|" + j.cs.keyID()
 }
 
 func (j *judge) detail(extra map[string]interface{}) map[string]interface{} {
 	d := map[string]interface{}{
 		"workload": j.cs.workload, "class_graph6": j.cs.class, "labelling": j.cs.labelling, "perm": j.cs.perm,
-		"graph6": j.cs.g6, "n": j.cs.g.N, "m": j.cs.g.M(), "graph": j.cs.g.String(), "representation": j.rep,
+		"n": j.cs.g.N, "m": j.cs.g.M(), "representation": j.rep,
+	}
+	if j.cs.id != "" {
+		d["structured_graph"] = j.cs.id
+	}
+	if j.cs.g.N <= 40 {
+		d["graph6"] = j.cs.g.G6()
+		d["graph"] = j.cs.g.String()
 	}
 	if j.repHow != "" {
 		d["representation_built_as"] = j.repHow
@@ -87,7 +113,7 @@ func (j *judge) violation(api, kind, witnessExtra string, extra map[string]inter
 		j.c.Obs("further_witnesses_not_reported:"+cls, 1)
 		return
 	}
-	key := cls + "|" + j.rep + "|g6=" + j.cs.g6
+	key := cls + "|" + j.rep + "|" + j.cs.keyID()
 	if witnessExtra != "" {
 		key += "|" + witnessExtra
 	}
@@ -193,7 +219,7 @@ func (s *snapshot) diff(t *snapshot) string {
 func buildReprs(c *engine.Ctx, cs *graphCase, r *engine.Rng) []repr {
 	g := cs.g
 	n := g.N
-	key := "build-representation|g6=" + cs.g6
+	key := "build-representation|" + cs.keyID()
 	out := []repr{
 		{name: "dense", how: "rg.Dense()", h: g.Dense()},
 		{name: "sparse", how: "rg.Sparse()", h: g.Sparse()},
@@ -260,7 +286,7 @@ func buildReprs(c *engine.Ctx, cs *graphCase, r *engine.Rng) []repr {
 // observe reads the representation through the Graph interface (guarded).
 func observe(c *engine.Ctx, cs *graphCase, rp repr) (*snapshot, string) {
 	var s *snapshot
-	if pi := c.Call("observe-representation|"+rp.name+"|g6="+cs.g6, func() { s = takeSnapshot(rp.h) }); pi != nil {
+	if pi := c.Call("observe-representation|"+rp.name+"|"+cs.keyID(), func() { s = takeSnapshot(rp.h) }); pi != nil {
 		return nil, "observer panicked: " + pi.String()
 	}
 	return s, ""
@@ -270,7 +296,7 @@ func observe(c *engine.Ctx, cs *graphCase, rp repr) (*snapshot, string) {
 // one case: all representations, all functions
 
 func runCase(c *engine.Ctx, cs *graphCase, opt runOpts) {
-	if cs.g6 == "" {
+	if cs.g6 == "" && cs.id == "" {
 		cs.g6 = cs.g.G6()
 	}
 	g := cs.g
@@ -304,17 +330,17 @@ func runCase(c *engine.Ctx, cs *graphCase, opt runOpts) {
 		if why != "" {
 			// the value is not a representation of this graph: not C09's case (C05/C06)
 			c.Obs("rep_unusable:"+rp.name, 1)
-			c.Sample("rep_unusable:"+rp.name, map[string]interface{}{"graph6": cs.g6, "how": rp.how, "why": why})
+			c.Sample("rep_unusable:"+rp.name, map[string]interface{}{"graph": cs.keyID(), "how": rp.how, "why": why})
 			continue
 		}
 		if d := before.derived(g); d != "" {
 			// still judged: the invariants must not depend on the representation
 			c.Obs("rep_derived_observers_disagree_with_model:"+rp.name, 1)
-			c.Sample("rep_derived_observers_disagree_with_model:"+rp.name, map[string]interface{}{"graph6": cs.g6, "how": rp.how, "what": d})
+			c.Sample("rep_derived_observers_disagree_with_model:"+rp.name, map[string]interface{}{"graph": cs.keyID(), "how": rp.how, "what": d})
 		}
 		c.Obs("rep:"+rp.name, 1)
 		if n >= 4 && g.M() >= 2 {
-			c.NT(cs.g6, rp.name)
+			c.NT(cs.keyID(), cs.labelling, rp.name)
 		}
 		j := newJudge(c, cs, rp.name, rp.how, rp.V)
 		j.cliqueNumbers(rp.h)
@@ -883,7 +909,7 @@ func (j *judge) polynomial(eg graph.EditableGraph, rep string) {
 	if rep == "sparse" && strings.HasPrefix(j.cs.workload, "poly-sparse") {
 		c.Eval(1)
 		var s *snapshot
-		if pi := c.Call("observe-representation|sparse|g6="+j.cs.g6, func() { s = takeSnapshot(eg) }); pi != nil {
+		if pi := c.Call("observe-representation|sparse|"+j.cs.keyID(), func() { s = takeSnapshot(eg) }); pi != nil {
 			j.panicked("ChromaticPolynomial", "argument-unreadable-afterwards", nil, pi)
 		} else if d := s.isModel(j.cs.g); d != "" {
 			j.violation("ChromaticPolynomial", "argument-graph-changed", "", nil, d, "the graph passed in is unchanged")
